@@ -388,17 +388,18 @@ def gen_rule(rng, idx, kind='text'):
 def long_rule(rng, target, v6=False, rd=False, t=5):
     """a rule whose body is exactly `target` octets (values < 256 take 2 octets per operator)"""
     rdb = [0, 0, 255, 255, 0, 1, 0, 0] if rd else []
-    n = target - len(rdb) - 1
+    pre = [('pfx', 1, 0, 0, [0] * 16, 'short')] if v6 else []  # 3 octets; makes the route IPv6
+    n = target - len(rdb) - 1 - 3 * len(pre)
     ops = []
     if n % 2:  # one 2-octet value (3 octets with its operator)
         ops.append((0, 1, 256 + rng.randint(0, 1000)))
         n -= 3
     ops += [(0, 1, rng.randint(0, 255)) for _ in range(n // 2)]
-    return {'v6': v6, 'rd': rdb, 'comps': [('ops', t, ops, 'list')], 'via': 'api', 'kind': f'len{target}'}
+    return {'v6': v6, 'rd': rdb, 'comps': pre + [('ops', t, ops, 'list')], 'via': 'api', 'kind': f'len{target}'}
 
 
 def encode_cases(rng, tier):
-    n = 1100 if tier == 'quick' else 40000
+    n = 1100 if tier == "quick" else 20000
     cases = [gen_rule(rng, i) for i in range(n)]
     cases += [gen_rule(rng, i, 'direct') for i in range(n // 5)]
     lens = [237, 238, 239, 240, 241, 242, 255, 256, 257, 511, 512, 4094, 4095, 4096, 4097]
@@ -527,7 +528,7 @@ def gen_wire(rng, idx):
 
 
 def decode_cases(rng, tier):
-    n = 1500 if tier == 'quick' else 60000
+    n = 1500 if tier == "quick" else 30000
     cases = [gen_wire(rng, i) for i in range(n)]
     # raw random bytes (malformed stream)
     for _ in range(n // 6):
